@@ -37,6 +37,7 @@ def run(ctx: Ctx):
     welch(ctx)
     overlap(ctx)
     overlap_axes(ctx)
+    overlap_path_guard(ctx)
     indices(ctx)
     translation(ctx)
     self_exclusion(ctx)
@@ -47,6 +48,9 @@ def run(ctx: Ctx):
     from .common import generic_lints
 
     generic_lints(ctx)
+    from .common import position_param_truthiness
+
+    position_param_truthiness(ctx)
     from .common import float64_extractors
 
     float64_extractors(ctx)
@@ -830,3 +834,55 @@ def overlap_axes(ctx: Ctx):
             ctx.undecided("overlap-axes", where, idx[:100], "every axis restricted")
     ctx.count("overlap tensors", n)
     ctx.require_min("overlap tensors", 2)
+
+
+def overlap_path_guard(ctx: Ctx):
+    """The overlap-corrected test is for overlapping multiple-response COLUMNS: the switch `_Slice._cube_has_overlaps` is
+    True exactly when the columns dimension is multiple response AND the response carries both overlap measures.
+    Decision table over (columns type, overlap present, valid-overlap present); the measures may be asked for through
+    the accessors or through the set of available measure names."""
+    from ..dectab import DTop, ModelInterp, Raises
+
+    sl = ctx.repo.cls("cubepart.py", "_Slice")
+    where = "cubepart.py::_Slice._cube_has_overlaps"
+    if ctx.repo.lookup(sl, "_cube_has_overlaps") is None:
+        ctx.undecided("overlap-path.guard", where, "member not found", "")
+        return
+    e = expand(ctx.repo, sl, "_cube_has_overlaps", stop=lambda m: m.name != "_cube_has_overlaps" and not (m.name.startswith("_") and m.kind in ("method", "staticmethod", "classmethod")))
+    bad, n = [], 0
+    for col_type in ("MR", "CAT", "CA_CAT"):
+        for ov in (True, False):
+            for vov in (True, False):
+                def atoms(x, col_type=col_type, ov=ov, vov=vov):
+                    t = u(x)
+                    if t in ("self._dimensions[-1].dimension_type", "self._dimensions[1].dimension_type", "self._columns_dimension.dimension_type", "self._cube.dimension_types[-1]"):
+                        return col_type
+                    if t in ("self._dimensions[0].dimension_type", "self._dimensions[-2].dimension_type", "self._rows_dimension.dimension_type"):
+                        return "MR"  # the ROWS being multiple response is not what the switch is about
+                    if t == "self._cube.overlaps":
+                        return ("OVERLAPS",) if ov else None
+                    if t == "self._cube.valid_overlaps":
+                        return ("VALID_OVERLAPS",) if vov else None
+                    if t == "self._cube.available_measures":
+                        return frozenset(["COUNT"] + (["OVERLAP"] if ov else []) + (["VALID_OVERLAP"] if vov else []))
+                    if isinstance(x, ast.Attribute) and isinstance(x.value, ast.Name) and x.value.id in ("DT", "CM", "CUBE_MEASURE"):
+                        return x.attr
+                    if isinstance(x, ast.Set):
+                        raise KeyError
+                    raise KeyError
+
+                try:
+                    got = ModelInterp(atoms).ev(e)
+                except Raises as r:
+                    bad.append(f"columns {col_type}, overlap {ov}, valid overlap {vov}: raises {r.etype}")
+                    continue
+                except DTop as t_:
+                    ctx.undecided("overlap-path.guard", where, "DECTAB: " + str(t_), "True iff MR columns and both overlap measures")
+                    return
+                n += 1
+                want = col_type == "MR" and ov and vov
+                if bool(got) != want:
+                    bad.append(f"columns {col_type}, overlap {'present' if ov else 'absent'}, valid overlap {'present' if vov else 'absent'}: {bool(got)}")
+    ctx.count("overlap switch cases", n)
+    ctx.ob("overlap-path.guard", where, bad[:3] or f"{n} cases", "True exactly for multiple-response columns with both overlap measures", not bad,
+           "with overlap measures of an MR that is NOT the columns dimension the column test reads the overlap tensor in the wrong layout (NaN / IndexError / wrong p)")
